@@ -7,6 +7,12 @@
 (*                a unit as 683 bytes = 2049 bytes, crossing a sector)     *)
 (*        "zsm" : z, s (1 unit) and m (3 units)                            *)
 (*        "sm5" : s (1 unit) and m (5 units)                               *)
+(*        "b1", "b3", "b4", "b5" : s (1 unit, an ordinary file) and b, an  *)
+(*                El Torito boot file WITH A BOOT INFO TABLE of 1/3/4/5    *)
+(*                units; the harness realises the unit so that the file is *)
+(*                5, 8, 9, 20, 24, 63, 64, 65, 66, 2049, ... bytes long,   *)
+(*                i.e. ends before, inside, at the end of and beyond the   *)
+(*                table (bytes 8..63), see Stream!Overlaid                 *)
 (* Alpha  "full": n in {0,1,2,L,L+1,None}, readinto k in {0,1,2,L,L+1},    *)
 (*                seek offsets -1..L+1 x whence {0,1,2} and one invalid    *)
 (*                whence, all block-size labels                            *)
@@ -26,8 +32,13 @@ CONSTANTS MaxLen, Dump, Shape, Alpha
 
 VARIABLE h
 
+BootShapes == {"b1", "b3", "b4", "b5"}
 MCFiles == CASE Shape = "zm" -> {"z", "m"} [] Shape = "zsm" -> {"z", "s", "m"} [] Shape = "sm5" -> {"s", "m"}
-MCLenOf == [f \in MCFiles |-> CASE f = "z" -> 0 [] f = "s" -> 1 [] f = "m" -> IF Shape = "sm5" THEN 5 ELSE 3]
+             [] Shape \in BootShapes -> {"s", "b"}
+MCLenOf == [f \in MCFiles |-> CASE f = "z" -> 0 [] f = "s" -> 1 [] f = "m" -> IF Shape = "sm5" THEN 5 ELSE 3
+                                 [] f = "b" -> CASE Shape = "b1" -> 1 [] Shape = "b3" -> 3
+                                                 [] Shape = "b4" -> 4 [] Shape = "b5" -> 5]
+MCTableFiles == MCFiles \cap {"b"}
 MCSids  == {1, 2}
 
 MCReadSizes(L)   == IF Alpha = "full" THEN {0, 1, 2, L, L + 1, NoneN} ELSE {1, L + 1, NoneN}
@@ -38,6 +49,7 @@ MCBlockLabels    == IF Alpha = "full" THEN {"1", "7", "2048", "8192", "L", "L1"}
 
 \* the harness takes the file lengths from here (one source of truth)
 ASSUME PrintT(<<"SHAPE", ToJson(MCLenOf)>>)
+ASSUME PrintT(<<"TABLEFILES", ToJson([files |-> MCTableFiles])>>)
 
 mcvars == <<fpos, streams, last, h>>
 
